@@ -347,7 +347,46 @@ var stringPool = []string{
 // representable in every format.
 var rarePool = []string{"del\u007f"}
 
+// Strings that look like the escape sequences / markup of some layer a value may pass through (JSON string
+// escapes, encoding/json's HTML-safe escapes \u003c \u003e \u0026 \u2028 \u2029, surrogates, YAML indicators and
+// escapes, URL / HTML entity escapes): a layer that rewrites its output or input textually is only exposed by a
+// payload that already contains the text it looks for.
+var escapedForms = []string{
+	`\u003c`, `\u003e`, `\u0026`, `\u003C`, `\u003E`, `\u2028`, `\u2029`, `\u0000`, `\u0022`, `\u005c`, `\u00e9`, `\ud800`, `\udc00`,
+	`\ud83d\ude00`, `\U0001F600`, `\x3c`, `\x00`, `\n`, `\r`, `\t`, `\b`, `\f`, `\0`, `\"`, `\'`, `\\`, `\/`, `\<`, `\>`, `\&`, `\ `, `\u`, `\u00`,
+	`\u003`, `\N`, `\_`, `\e`, `\L`, `\P`,
+}
+
+var escapeFragments = []string{
+	`\`, `\`, `\\`, "u003c", "u003e", "u0026", "u2028", "u00", "u", "x3c", "n", "0", "/", `"`, "'", "<", ">", "&", "&amp;", "&lt;", "&#60;",
+	"&#x3c;", "%3C", "%5C", "%", "\u2028", "\u2029", "\u0085", "\b", "\f", "\x1f", "\r", "\r\n", "\n", "\t", "${", "{{", "}}", ": ", " #", "- ", "!",
+	"!!str ", "!!binary ", "*", "&a ", "|", ">-", "---", "...", "?", "=", "<<", "[", "]", "{", "}", ",", "</script>", "<!--", "]]>", "\ufeff", "\ufffd",
+}
+
+func genEscapeString(r *rand.Rand) string {
+	var sb strings.Builder
+	n := 1 + r.Intn(5)
+	for i := 0; i < n; i++ {
+		switch r.Intn(5) {
+		case 0, 1:
+			sb.WriteString(escapedForms[r.Intn(len(escapedForms))])
+		case 2:
+			// a backslash (one or two) in front of a hexadecimal escape body
+			sb.WriteString([]string{`\`, `\\`, `\\\`}[r.Intn(3)])
+			sb.WriteString([]string{"u003c", "u003e", "u0026", "u2028", "u2029", "u0000", "u000a", "u005c", "u0022", "ud800", "x3c"}[r.Intn(11)])
+		case 3:
+			sb.WriteString(escapeFragments[r.Intn(len(escapeFragments))])
+		default:
+			sb.WriteString(stringPool[r.Intn(len(stringPool))])
+		}
+	}
+	return sb.String()
+}
+
 func genString(r *rand.Rand) string {
+	if r.Intn(8) == 0 {
+		return genEscapeString(r)
+	}
 	switch r.Intn(1200) {
 	case 0, 1, 2:
 		return rarePool[r.Intn(len(rarePool))]
